@@ -173,6 +173,14 @@ def user_rows_fn(spec):
     elif name == 'identity':
         def rows_fn(rows):
             yield from rows
+    elif name == 'head':
+        k_ = spec.get('n', 10)
+
+        def rows_fn(rows):
+            for i, r in enumerate(rows):
+                if i >= k_:
+                    return                  # stops early: the rest of the resource is simply not asked for
+                yield r
     elif name == 'swallow':
         def rows_fn(rows):
             for r in rows:
@@ -318,11 +326,13 @@ def build(spec, env):
         p = env.path('dump')
         env.cap('dump_to_path').append(p)
         kw = {} if spec.get('format', 'csv') == 'csv' else {'format': spec['format']}
+        if spec.get('filehash'):
+            kw['add_filehash_to_path'] = True
         return d.dump_to_path(p, **kw)
     if k == 'dump_to_zip':
         p = env.path('dump.zip')
         env.cap('dump_to_zip').append(p)
-        return d.dump_to_zip(p)
+        return d.dump_to_zip(p, **({'add_filehash_to_path': True} if spec.get('filehash') else {}))
     if k == 'stream_file':
         p = env.path('stream.ndjson')
         env.cap('stream_file').append(p)
@@ -540,8 +550,10 @@ def _draw_spec(draw, state, kinds, counter):
     if k == 'printer':
         return {'k': k, 'num_rows': draw(st.sampled_from([1, 2, 10]))}
     if k == 'dump_to_path':
-        return {'k': k, 'format': draw(st.sampled_from(['csv', 'csv', 'json']))}
-    if k in ('dump_to_zip', 'stream_file', 'checkpoint'):
+        return {'k': k, 'format': draw(st.sampled_from(['csv', 'csv', 'json'])), 'filehash': draw(st.sampled_from([False, False, True]))}
+    if k == 'dump_to_zip':
+        return {'k': k, 'filehash': draw(st.sampled_from([False, False, True]))}
+    if k in ('stream_file', 'checkpoint'):
         return {'k': k}
     if k == 'finalizer':
         return {'k': k, 'with_stats': draw(st.booleans())}
